@@ -143,7 +143,7 @@ def main(argv=None):
             if o["sample"] and len(samples) < 12 and o["ok"]:
                 samples.append(dict(job=r["job"], obligation=o["name"], entries=o["n"], example=o["sample"][:400]))
         per_job.append(dict(job=r["job"], obligations=jn, discharged=jo, secs=r["secs"], atoms=r.get("atoms"),
-                            definedness_conditions=r.get("defined")))
+                            definedness_conditions=r.get("defined"), worker_maxrss_mb=r.get("maxrss_mb")))
     vacuous = n_obl == 0
     # ------------------------------------------------------------ report
     code = 0
